@@ -5,12 +5,13 @@ from checks.enginelib import charts, shrink
 from checks import c01
 
 THEOREMS = [
+    ("UscxmlVerif.Properties.C03.fast_selection_conflict_free_w3c_of_document", "proved", "PARTIAL: for every well-formed document FastMicroStep's selected set is conflict-free in Appendix D's sense, as LargeMicroStep's is (C01)"),
     ("UscxmlVerif.Properties.C03.fast_selection_conflict_free_w3c", "proved", "PARTIAL: FastMicroStep's selected set is conflict-free in Appendix D's sense as well (same hypotheses as C01.selection_conflict_free_w3c; evaluated on the generated charts by check C01/C05)"),
     ("UscxmlVerif.Properties.C03.both_engines_select_conflict_free_partial", "proved", "PARTIAL: both engine models select conflict-free transition sets on every chart and input (LargeMicroStep by checking candidates against the set so far, FastMicroStep through its accumulated pre-computed conflict sets)"),
     ("UscxmlVerif.Properties.C03.both_engines_keep_configuration_a_set", "proved", "both engines keep the configuration ascending, duplicate-free and free of pseudo-states"),
 ]
 FINISH = {"level": "exploration"}   # trace equality of the two engines is decided by running them side by side
-LEAN_FILES = ["UscxmlVerif.Properties.C03", "UscxmlVerif.Proofs.Select", "UscxmlVerif.Proofs.Interval"]
+LEAN_FILES = ["UscxmlVerif.Properties.C03", "UscxmlVerif.Proofs.Select", "UscxmlVerif.Proofs.Interval", "UscxmlVerif.Proofs.Subtree"]
 
 
 def run(ctx):
